@@ -517,12 +517,43 @@ def dry_rule(chk, ctx):
                 defaults[x.arg] = d
         return pos, [x.arg for x in a.kwonlyargs], defaults
 
-    for caller, cname_, callee, callee_name, skip in ((init, CLS + ".__init__", alloc, "allocate_snapshots", False),
-                                                      (alloc, "allocate_snapshots", init, CLS, True)):
+    # every call edge on a chain  __init__ -> ... -> allocate_snapshots  and  allocate_snapshots -> ... -> CLS(...)
+    # (helpers extracted in between are part of the chain)
+    modfns = {f.name: f for f in repo.module(REL).tree.body if isinstance(f, ast.FunctionDef)}
+
+    def callees(fn):
+        return [n for n in ast.walk(fn) if isinstance(n, ast.Call) and isinstance(n.func, ast.Name)
+                and (n.func.id in modfns or n.func.id == CLS)]
+
+    def reaches(name, target, seen=()):
+        if name == target:
+            return True
+        if name in seen or name not in modfns:
+            return False
+        return any(reaches(c.func.id, target, seen + (name,)) for c in callees(modfns[name]))
+    edges = []
+    todo, seen = [(init, CLS + ".__init__", "allocate_snapshots")], set()
+    todo.append((alloc, "allocate_snapshots", CLS))
+    while todo:
+        caller, cname_, target = todo.pop()
+        if (cname_, target) in seen:
+            continue
+        seen.add((cname_, target))
+        for call in callees(caller):
+            nm = call.func.id
+            if nm == cname_ or not reaches(nm, target):
+                continue
+            callee = init if nm == CLS else modfns[nm]
+            edges.append((caller, cname_, callee, nm, nm == CLS, call))
+            if nm != target and nm in modfns:
+                todo.append((modfns[nm], nm, target))
+    counts = {}
+    for caller, cname_, callee, callee_name, skip, call in edges:
         own = {x.arg for x in caller.args.args + caller.args.kwonlyargs} - {"self"}
         pos, kwonly, defaults = signature(callee, skip)
-        calls = [n for n in ast.walk(caller) if isinstance(n, ast.Call) and getattr(n.func, "id", None) == callee_name]
-        for k, call in enumerate(calls):
+        k = counts.get((cname_, callee_name), 0)
+        counts[(cname_, callee_name)] = k + 1
+        if True:
             bound = dict(zip(pos, call.args))
             for kw in call.keywords:
                 if kw.arg:
@@ -531,7 +562,8 @@ def dry_rule(chk, ctx):
             for q in pos + kwonly:
                 if q not in own or q not in defaults:
                     continue       # only parameters both sides have, and that can be left out
-                cons = f"multistage.{cname_}#dry-run[{k}]/{q}"
+                cons = f"multistage.{cname_}#dry-run[{k}]/{q}" if callee_name in ("allocate_snapshots", CLS) else \
+                    f"multistage.{cname_}#dry-run->{callee_name}[{k}]/{q}"
                 if q not in bound:
                     chk.decide("C14.WEIGHTS", cons, None if has_star else False,
                                f"{callee_name}(...) is called without `{q}`: the callee's default `{ast.unparse(defaults[q])}` is used, "
